@@ -1,4 +1,4 @@
 ------------------------------ MODULE MC_LJMol ------------------------------
 EXTENDS LJMol, TLC, Json
-Emit == NoContact => PrintT(<<"EMIT", ToJson([a |-> A, b |-> B, k |-> K, c2 |-> c2])>>)
+Emit == NoContact => PrintT(<<"EMIT", ToJson([a |-> A, b |-> B, k |-> K, c2 |-> c2, cb2 |-> cb2, pc2 |-> PairCut])>>)
 =============================================================================
